@@ -5,6 +5,8 @@ import (
 	"encoding/json"
 	"fmt"
 	"go/ast"
+	"os"
+	"path/filepath"
 	"sort"
 	"strconv"
 	"strings"
@@ -216,6 +218,47 @@ func runC19(ctx *Ctx) error {
 	if err := c19MultiDocRun(ctx); err != nil {
 		return err
 	}
+	// through the command-line tool as well: skip-prune asked for in each configuration style keeps the components nothing
+	// refers to in the embedded specification; without it they go
+	if bin, err := c20Build(ctx); err == nil {
+		d := filepath.Join(ctx.Work, "c19cli")
+		_ = os.MkdirAll(d, 0o755)
+		doc := J{"openapi": "3.0.3", "info": J{"title": "t", "version": "1"}, "paths": J{"/a": J{"get": J{"operationId": "getA", "responses": J{"204": J{"description": "d"}}}}},
+			"components": J{"schemas": J{"Unreferenced": J{"type": "object", "properties": J{"a": J{"type": "string"}}}}}}
+		_ = os.WriteFile(filepath.Join(d, "spec.json"), []byte(Canon(doc)), 0o644)
+		_ = os.WriteFile(filepath.Join(d, "old.yaml"), []byte("package: api\ngenerate:\n  - types\n  - spec\n  - skip-prune\n"), 0o644)
+		_ = os.WriteFile(filepath.Join(d, "oldprune.yaml"), []byte("package: api\ngenerate:\n  - types\n  - spec\n"), 0o644)
+		_ = os.WriteFile(filepath.Join(d, "new.yaml"), []byte("package: api\ngenerate:\n  models: true\n  embedded-spec: true\noutput-options:\n  skip-prune: true\n"), 0o644)
+		for _, v := range []struct {
+			name string
+			args []string
+			keep bool
+		}{{"old-style-file", []string{"-old-config-style", "-config", "old.yaml", "spec.json"}, true}, {"legacy-flags", []string{"-package", "api", "-generate", "types,spec,skip-prune", "spec.json"}, true},
+			{"legacy-flags-with-deprecated-flag", []string{"-package", "api", "-generate", "types,spec,skip-prune", "-response-type-suffix", "Resp", "spec.json"}, true},
+			{"new-style-file", []string{"-config", "new.yaml", "spec.json"}, true}, {"old-style-file-pruning", []string{"-old-config-style", "-config", "oldprune.yaml", "spec.json"}, false}} {
+			run := c20Exec(bin, d, v.args...)
+			ctx.Res.Eval(J{"cli-skip-prune": v.name}, true)
+			ctx.Res.Count("cli:" + v.name)
+			if run.Exit != 0 {
+				continue // C20's business
+			}
+			f, _, perr := parseGo(run.Stdout)
+			if perr != nil {
+				continue
+			}
+			raw, derr := decodeEmbedded(f)
+			if derr != nil {
+				ctx.Res.Violate("cli:embedded-undecodable:"+v.name, "the specification embedded by the tool does not decode: "+derr.Error(), J{"doc": doc, "args": v.args})
+				continue
+			}
+			has := strings.Contains(string(raw), "Unreferenced")
+			if has != v.keep {
+				ctx.Res.Violate("cli:embedded-components:"+v.name, fmt.Sprintf("tool %v: the embedded specification has the unreferenced component: %v, requested: %v", v.args, has, v.keep), J{"doc": doc, "args": v.args})
+			}
+		}
+		_ = os.RemoveAll(d)
+	}
+
 	// RUN
 	n := ctx.N(30, 240)
 	for i := 0; i < n; i++ {
